@@ -217,11 +217,11 @@ Definition int_spec (s : str) : option Z :=
   end.
 
 (** strings.rs parse_nat: [checked_sub_if(BASE > 10, digit, 'a')], then 'A', then
-    [digit.checked_sub('0').unwrap_or(BASE)]; accepted when [< BASE] *)
+    [digit.checked_sub('0').filter(|d| *d < 10).unwrap_or(BASE)]; accepted when [< BASE] *)
 Definition digit_impl (base c : N) : option N :=
   let d := if (10 <? base)%N && (97 <=? c)%N then (c - 97 + 10)%N
            else if (10 <? base)%N && (65 <=? c)%N then (c - 65 + 10)%N
-           else if (48 <=? c)%N then (c - 48)%N else base in
+           else if (48 <=? c)%N then (if (c - 48 <? 10)%N then (c - 48)%N else base) else base in
   if (d <? base)%N then Some d else None.
 (** round a non-negative integer to 53 significant bits, ties to even: what one f64 operation
     on integer-valued operands returns.  [None] = overflow to infinity. *)
@@ -256,10 +256,6 @@ Fixpoint parse_nat_impl (base : N) (acc : pnum) (s : str) : pnum :=
   end.
 Definition nat_impl (base : N) (s : str) : pnum :=
   match s with [] => PBad | _ => parse_nat_impl base (PFin 0) s end.
-(** the input class on which the classifier is wrong: base 16 and a character ':'..'?' *)
-Definition known_hex_punct (base : N) (s : str) : bool :=
-  (base =? 16)%N && existsb (fun c => (58 <=? c)%N && (c <=? 63)%N) s.
-
 (** * base64 (RFC 4648 section 4, canonical) *)
 Definition b64_char (v : N) : N :=
   if (v <? 26)%N then (65 + v)%N
